@@ -74,6 +74,7 @@ uint64_t vh_seed0 = 1;
 int vh_shard = 0, vh_nshards = 1;
 int vh_verbose = 0;
 int vh_slice = 1;
+int vh_light = 0;
 
 static const char *opt_out = ".";
 static const char *opt_unit = NULL; /* "gen:idx" filter */
@@ -588,6 +589,8 @@ main(int argc, char **argv)
             opt_unit = argv[++i];
         } else if (!strcmp(argv[i], "--verbose")) {
             vh_verbose = 1;
+        } else if (!strcmp(argv[i], "--light")) {
+            vh_light = 1;
         } else if (!strcmp(argv[i], "--nofork")) {
             opt_nofork = 1;
         } else if (!strcmp(argv[i], "--slice") && i + 1 < argc) {
